@@ -759,6 +759,20 @@ def rootSame (st : St) (t : RState) : St :=
 
 def noZ (s : St) : St := { s with zombies := [] }
 
+/-- what one poll of task `e` does to the OTHER effects that are still mounted afterwards, and to the DOM
+nodes that `e` does not govern -/
+structure Frame1 (st : St) (e : Nat) (st' : St) : Prop where
+  frame : ∀ t', st'.root = some t' → ∀ x ∈ effsOf t', x ≠ e → x < st.prog.length →
+    (st'.rs.get x).dirty = (st.rs.get x).dirty ∧
+      ∀ i, (x ∈ (st'.rs.get i).subs ↔ x ∈ (st.rs.get i).subs)
+  nodes : ∀ n g, (n, g) ∈ st.nodes → e ∉ g → (n, g) ∈ st'.nodes
+
+theorem Frame1.of_same_root {st st' : St} {e : Nat} (hroot : st'.root = st.root) (hrootN : st'.rootN = st.rootN)
+    (hget : ∀ x, x ≠ e → (st'.rs.get x).dirty = (st.rs.get x).dirty)
+    (hsubs : ∀ i x, x ≠ e → (x ∈ (st'.rs.get i).subs ↔ x ∈ (st.rs.get i).subs)) : Frame1 st e st' :=
+  ⟨fun _ _ x _ hne _ => ⟨hget x hne, fun i => hsubs i x hne⟩,
+   fun n g hm _ => by simp only [St.nodes, hroot, hrootN]; exact hm⟩
+
 /-- **the re-run of a dirty effect keeps the invariant**, wherever the effect lives -/
 theorem InvC.run {K : Nat} {v : View} {st : St} (h : InvC K v st) (hw : v.wf K = true) (hc : v.core = true)
     {e : Nat} (hke : K ≤ e) (hlt : e < st.prog.length) {x : Expr} (hp : st.prog[e]? = some (.eff x))
@@ -766,7 +780,8 @@ theorem InvC.run {K : Nat} {v : View} {st : St} (h : InvC K v st) (hw : v.wf K =
     (hwhere : ∀ t, st.root = some t → e ∈ effsOf t ∨ e ∈ zEffs st.zombies)
     {rs' : State} (ra : RanAt K st e x rs') :
     InvC K v (rerun { st with rs := rs' } e (evalPure (Reactive.envOf st.rs) x)) ∧
-      ((rerun { st with rs := rs' } e (evalPure (Reactive.envOf st.rs) x)).rs.get e).chan = false := by
+      ((rerun { st with rs := rs' } e (evalPure (Reactive.envOf st.rs) x)).rs.get e).chan = false ∧
+      Frame1 st e (rerun { st with rs := rs' } e (evalPure (Reactive.envOf st.rs) x)) := by
   obtain ⟨t, ht⟩ := h.tree
   have hiB : RInv K { st with rs := rs' } := ra.rinv h.rinv hke hlt hs
   have hzbound := zEffs_bound h.zb h.zok
@@ -825,7 +840,7 @@ theorem InvC.run {K : Nat} {v : View} {st : St} (h : InvC K v st) (hw : v.wf K =
     unfold zpass
     rw [rerunZombies_absent e w _ _ habs]
     dsimp only
-    constructor
+    refine ⟨?_, ?_, ?_, ?_⟩
     · refine InvC.of_rerun h ht hm ra (s0 := { ({ st with rs := rs' } : St) with root := none }) rfl rfl rfl rfl hr
         hkeep rfl rfl rfl rfl ?_
       show (afterRoot { st with rs := rs' } e w t).zombies ++ [] = _
@@ -835,6 +850,47 @@ theorem InvC.run {K : Nat} {v : View} {st : St} (h : InvC K v st) (hw : v.wf K =
       simp only [RView.ctl, Prod.mk.injEq] at hc1
       show ((rerunIn e w t ({ ({ st with rs := rs' } : St) with root := none })).2.1.rs.get e).chan = false
       rw [hc1.2.2.2.2.1]; exact ra.chan
+    · -- other effects that are still in the tree
+      intro t' ht' y hy hne hylt
+      have htt : t' = (rerunIn e w t ({ ({ st with rs := rs' } : St) with root := none })).1 := by
+        have : some (rerunIn e w t ({ ({ st with rs := rs' } : St) with root := none })).1 = some t' := ht'
+        exact (Option.some.inj this).symm
+      rw [htt] at hy
+      have hnA : y ∉ zEffs (newZ ({ ({ st with rs := rs' } : St) with root := none })
+          (rerunIn e w t ({ ({ st with rs := rs' } : St) with root := none })).2.1) := by
+        intro hmm
+        have h1 := hr.cnt y hylt
+        have h2 : 1 ≤ (effsOf (rerunIn e w t ({ ({ st with rs := rs' } : St) with root := none })).1).count y :=
+          List.one_le_count_iff.2 hy
+        have h3 := List.nodup_iff_count.1 hndt y
+        have h4 := List.one_le_count_iff.2 hmm
+        omega
+      have c1 := ra.acts.ctl y hne
+      have c2 := hr.ext.ctl y hylt hnA
+      simp only [RView.ctl, Prod.mk.injEq] at c1 c2
+      refine ⟨?_, fun i => ?_⟩
+      · show ((rerunIn e w t ({ ({ st with rs := rs' } : St) with root := none })).2.1.rs.get y).dirty = _
+        rw [c2.2.2.2.1]; exact c1.2.2.2.1
+      · show y ∈ ((rerunIn e w t ({ ({ st with rs := rs' } : St) with root := none })).2.1.rs.get i).subs ↔ _
+        rw [hr.ext.subs i y hylt hnA]; exact ra.acts.subs i y hne
+    · -- nodes that the effect does not govern
+      intro n g hmn hg
+      simp only [St.nodes, ht.root, List.mem_cons] at hmn
+      show (n, g) ∈ St.nodes ({ afterRoot { st with rs := rs' } e w t with
+        zombies := (afterRoot { st with rs := rs' } e w t).zombies ++ [] })
+      have hrn : (rerunIn e w t ({ ({ st with rs := rs' } : St) with root := none })).2.1.rootN = st.rootN :=
+        hr.rootN
+      simp only [St.nodes, afterRoot, List.mem_cons]
+      rcases hmn with hmn | hmn
+      · left
+        have hn : n = st.rootN := (Prod.mk.inj hmn).1
+        have hgg : g = structEffs t := (Prod.mk.inj hmn).2
+        subst hgg
+        have hst := rerunIn_struct e w t ({ ({ st with rs := rs' } : St) with root := none }) hg
+        rw [hst.1, hst.2, hn, hrn]
+        rfl
+      · right
+        exact rerunIn_nodes e w t _ n g hmn hg
   · -- the effect lives in a tree held by a zombie
     have hez : e ∈ zEffs st.zombies := (hwhere t ht.root).resolve_left hm
     have hroot0 : rerunIn e w t ({ ({ st with rs := rs' } : St) with root := none }) =
@@ -861,7 +917,38 @@ theorem InvC.run {K : Nat} {v : View} {st : St} (h : InvC K v st) (hw : v.wf K =
     have hnz : (rerunZombies e w st.zombies sZ).2.zombies = newZ sZ (rerunZombies e w st.zombies sZ).2 := by
       have := hz.zomb; rw [hzZ] at this; simpa using this
     have hkeep := rerunZombies_keeps e w st.zombies sZ hez
-    constructor
+    have hrootNZ : sZ.rootN = st.rootN := by rw [← hsZ]; rfl
+    refine ⟨?_, ?_, ?_, ?_⟩
+    rotate_left 2
+    · -- other effects of the (unchanged) mounted tree
+      intro t' ht' y hy hne hylt
+      have htt : t' = t := by
+        have h1 : (rerunZombies e w st.zombies sZ).2.root = some t' := ht'
+        rw [hz.root, hrootZ] at h1
+        exact (Option.some.inj h1).symm
+      rw [htt] at hy
+      have hnA : y ∉ zEffs (newZ sZ (rerunZombies e w st.zombies sZ).2) := by
+        intro hmm
+        have h1 := hz.cnt y (by rw [hpZ]; exact hylt)
+        have h2 : 1 ≤ (effsOf t).count y := List.one_le_count_iff.2 hy
+        have h3 := ht.uniq y
+        have h4 := List.one_le_count_iff.2 hmm
+        omega
+      have c1 := ra.acts.ctl y hne
+      have c2 := hz.ext.ctl y (by rw [hpZ]; exact hylt) hnA
+      rw [hrZ] at c2
+      simp only [RView.ctl, Prod.mk.injEq] at c1 c2
+      refine ⟨?_, fun i => ?_⟩
+      · show ((rerunZombies e w st.zombies sZ).2.rs.get y).dirty = _
+        rw [c2.2.2.2.1]; exact c1.2.2.2.1
+      · show y ∈ ((rerunZombies e w st.zombies sZ).2.rs.get i).subs ↔ _
+        rw [hz.ext.subs i y (by rw [hpZ]; exact hylt) hnA, hrZ]; exact ra.acts.subs i y hne
+    · intro n g hmn _
+      show (n, g) ∈ St.nodes ({ (rerunZombies e w st.zombies sZ).2 with
+        zombies := (rerunZombies e w st.zombies sZ).1 ++ (rerunZombies e w st.zombies sZ).2.zombies })
+      simp only [St.nodes, ht.root] at hmn
+      simp only [St.nodes, hz.root, hrootZ, hz.rootN, hrootNZ]
+      exact hmn
     · refine InvC.of_zrerun h ht hm hke hlt healive hedone hs ra hpZ hrZ htZ hz rfl rfl rfl ?_ ?_
       · show (rerunZombies e w st.zombies sZ).2.root = some t
         rw [hz.root]; exact hrootZ
@@ -926,7 +1013,7 @@ theorem InvC.poll {K : Nat} {v : View} {st : St} (h : InvC K v st) (hw : v.wf K 
             have : t' = t := by have := ht.root; rw [ht'] at this; cases this; rfl
             rw [this]; exact hwhere) ra
         have e1 : ({ stA with rs := ranRs stA e } : St) = { st with rs := ranRs stA e } := by rw [← hsA]
-        rw [e1, effLoop_nochan _ _ _ hres.2]
+        rw [e1, effLoop_nochan _ _ _ hres.2.1]
         exact hres.1
       · -- marked dirty but not notified: nothing happens (cannot occur for a mounted effect)
         rw [effLoop_nochan _ _ _ (by rw [hAget]; simpa using hch)]
@@ -955,6 +1042,140 @@ theorem InvC.poll {K : Nat} {v : View} {st : St} (h : InvC K v st) (hw : v.wf K 
       · rw [effLoop_nochan _ _ _ (by rw [hAget]; simpa using hch)]
         exact hA
   · exact h.dead hb.1 hb.2 (by simpa using healive)
+
+/-- a poll of an effect that is not dirty changes neither the DOM nor the effect's subscriptions -/
+def Clean1 (st : St) (e : Nat) (st' : St) : Prop :=
+  (st.rs.get e).dirty = false →
+    st'.root = st.root ∧ st'.rootN = st.rootN ∧ (st'.rs.get e).dirty = false ∧
+      ∀ i, (e ∈ (st'.rs.get i).subs ↔ e ∈ (st.rs.get i).subs)
+
+theorem flagsOnly_frame {st : St} {e : Nat} {rs'' : State} (ho : ∀ x, x ≠ e → rs''.get x = st.rs.get x)
+    (hd : (rs''.get e).dirty = (st.rs.get e).dirty) (hs : ∀ i, (rs''.get i).subs = (st.rs.get i).subs) :
+    Frame1 st e { st with rs := rs'' } ∧ Clean1 st e { st with rs := rs'' } :=
+  ⟨Frame1.of_same_root rfl rfl (fun x hx => by show (rs''.get x).dirty = _; rw [ho x hx])
+      (fun i x _ => by show x ∈ (rs''.get i).subs ↔ _; rw [hs i]),
+   fun hdf => ⟨rfl, rfl, by show (rs''.get e).dirty = false; rw [hd]; exact hdf,
+      fun i => by show e ∈ (rs''.get i).subs ↔ _; rw [hs i]⟩⟩
+
+theorem killed_dirty (n : Node) : (killed n).dirty = n.dirty := by unfold killed; split <;> rfl
+
+theorem dead_frame {st : St} {e : Nat} (hlt' : e < st.rs.nodes.length) (hdead : (st.rs.get e).alive = false) :
+    Frame1 st e (pollTask st e) ∧ Clean1 st e (pollTask st e) := by
+  generalize hrs2 : ((st.rs.upd e fun n => { n with woken := false }).upd e fun n => { n with done := true }) = rs2
+  have hpoll : pollTask st e = releaseZombie { st with rs := rs2 } e := by
+    unfold pollTask
+    have : ((st.rs.upd e fun n => { n with woken := false }).get e).alive = false := by
+      rw [State.get_upd_same _ _ hlt']; exact hdead
+    simp only [this, Bool.not_false, if_true]
+    rw [hrs2]
+  have g2 : ∀ i, (rs2.get i).dirty = (st.rs.get i).dirty ∧ (rs2.get i).subs = (st.rs.get i).subs := by
+    intro i
+    rw [← hrs2, State.get_upd]; split
+    · rw [State.get_upd]; split <;> exact ⟨rfl, rfl⟩
+    · rw [State.get_upd]; split <;> exact ⟨rfl, rfl⟩
+  rw [hpoll, releaseZombie_eq]
+  have d := dropAll_spec ((({ st with rs := rs2 } : St).zombies.filter fun z => z.1 == e).flatMap heldOf)
+    ({ ({ st with rs := rs2 } : St) with
+      zombies := ({ st with rs := rs2 } : St).zombies.filter fun z => !(z.1 == e) })
+  have hF : ∀ i, ((dropAll ({ ({ st with rs := rs2 } : St) with
+      zombies := ({ st with rs := rs2 } : St).zombies.filter fun z => !(z.1 == e) })
+      ((({ st with rs := rs2 } : St).zombies.filter fun z => z.1 == e).flatMap heldOf)).rs.get i).dirty
+        = (st.rs.get i).dirty ∧
+      ((dropAll ({ ({ st with rs := rs2 } : St) with
+      zombies := ({ st with rs := rs2 } : St).zombies.filter fun z => !(z.1 == e) })
+      ((({ st with rs := rs2 } : St).zombies.filter fun z => z.1 == e).flatMap heldOf)).rs.get i).subs
+        = (st.rs.get i).subs := by
+    intro i
+    rw [d.get i]; split
+    · rw [killed_dirty, killed_subs]; exact g2 i
+    · exact g2 i
+  exact ⟨Frame1.of_same_root d.root d.rootN (fun x _ => (hF x).1) (fun i x _ => by rw [(hF i).2]),
+    fun hdf => ⟨d.root, d.rootN, by rw [(hF e).1]; exact hdf, fun i => by rw [(hF i).2]⟩⟩
+
+/-- one poll of any task: the other mounted effects, the untouched nodes, and the not-dirty case -/
+theorem poll_frame {K : Nat} {v : View} {st : St} (h : InvC K v st) (hw : v.wf K = true) (hc : v.core = true)
+    {e : Nat} (he : e ∈ st.tasks) (hedone : (st.rs.get e).done = false) :
+    Frame1 st e (pollTask st e) ∧ Clean1 st e (pollTask st e) := by
+  obtain ⟨t, ht⟩ := h.tree
+  have hzbound := zEffs_bound h.zb h.zok
+  have hwhere : e ∈ effsOf t ∨ e ∈ zEffs st.zombies := by
+    rcases ht.tasks e he with hd | hd
+    · rw [hedone] at hd; cases hd
+    · exact hd
+  have hb : K ≤ e ∧ e < st.prog.length := by
+    rcases hwhere with hm | hm
+    · obtain ⟨_, _, hk⟩ := Good.effOK v t ht.good e hm; exact ⟨hk.ke, hk.lt⟩
+    · exact hzbound e hm
+  obtain ⟨x, hp, hs⟩ := h.rinv.effp e hb.1 hb.2
+  have hlt' : e < st.rs.nodes.length := by rw [← h.rinv.len]; exact hb.2
+  by_cases healive : (st.rs.get e).alive = true
+  · rw [pollTask_alive st e hlt' healive]
+    have hgA : FlagOnly (fun n : Node => { n with woken := false }) := fun _ => ⟨rfl, rfl, rfl, rfl, rfl, rfl, rfl⟩
+    have hiA : RInv K { st with rs := st.rs.upd e fun n => { n with woken := false } } :=
+      h.rinv.flags hgA hb.1 hb.2
+    have ranA := @ranRs_spec K { st with rs := st.rs.upd e fun n => { n with woken := false } } hiA e x hb.1 hb.2 hp hs
+    have hfA : ∀ i, ((st.rs.upd e fun n => { n with woken := false }).get i).dirty = (st.rs.get i).dirty ∧
+        ((st.rs.upd e fun n => { n with woken := false }).get i).subs = (st.rs.get i).subs := by
+      intro i; rw [State.get_upd]; split <;> exact ⟨rfl, rfl⟩
+    have hoA : ∀ y, y ≠ e → (st.rs.upd e fun n => { n with woken := false }).get y = st.rs.get y :=
+      fun y hy => State.get_upd_ne _ _ (Ne.symm hy)
+    have hfrA := flagsOnly_frame (st := st) (e := e) hoA (hfA e).1 (fun i => (hfA i).2)
+    generalize hsA : ({ st with rs := st.rs.upd e fun n => { n with woken := false } } : St) = stA at hiA ranA hfrA ⊢
+    have hAget : stA.rs.get e = { st.rs.get e with woken := false } := by
+      rw [← hsA]; exact State.get_upd_same _ _ hlt'
+    have hAlen : stA.rs.nodes.length = st.rs.nodes.length := by rw [← hsA]; simp
+    have hAobs : stA.rs.obs = none := by rw [← hsA]; exact h.rinv.obs
+    by_cases hd : (st.rs.get e).dirty = true
+    · by_cases hch : (st.rs.get e).chan = true
+      · rw [effLoop_dirty 63 stA e (by rw [hAlen]; exact hlt') (by rw [hAget]; exact hch)
+          (by rw [hAget]; exact hd) hAobs]
+        have ra : RanAt K st e x (ranRs stA e) := by
+          rw [← hsA] at ranA ⊢; exact ranAt_of_ran hlt' ranA
+        have henvA : Reactive.envOf stA.rs = Reactive.envOf st.rs := by
+          rw [← hsA]
+          funext i; simp only [Reactive.envOf]; rw [State.get_upd]; split <;> rfl
+        have hwv : ((ranRs stA e).get e).val.getD 0 = evalPure (Reactive.envOf st.rs) x := by
+          rw [ranA.val, henvA]; rfl
+        rw [hwv]
+        have hres := h.run hw hc hb.1 hb.2 hp hs healive hedone
+          (fun t' ht' => by
+            have : t' = t := by have := ht.root; rw [ht'] at this; cases this; rfl
+            rw [this]; exact hwhere) ra
+        have e1 : ({ stA with rs := ranRs stA e } : St) = { st with rs := ranRs stA e } := by rw [← hsA]
+        rw [e1, effLoop_nochan _ _ _ hres.2.1]
+        exact ⟨hres.2.2, fun hdf => by rw [hdf] at hd; cases hd⟩
+      · rw [effLoop_nochan _ _ _ (by rw [hAget]; simpa using hch)]
+        exact hfrA
+    · have hd' : (st.rs.get e).dirty = false := by simpa using hd
+      by_cases hch : (st.rs.get e).chan = true
+      · rw [effLoop_clean 63 stA e (by rw [hAlen]; exact hlt') (by rw [hAget]; exact hch)
+          (by rw [hAget]; exact hd') hAobs (by
+            intro y hy
+            rw [hAget] at hy
+            have hyK := h.rinv.srcs e hb.1 y hy
+            have := hiA.sigs y hyK
+            rw [this]; simp)]
+        rw [effLoop_nochan _ _ _ (by
+          show ((stA.rs.upd e fun n => { n with chan := false }).get e).chan = false
+          rw [State.get_upd_same _ _ (by rw [hAlen]; exact hlt')])]
+        have e2 : ({ stA with rs := stA.rs.upd e fun n => { n with chan := false } } : St) =
+            { st with rs := stA.rs.upd e fun n => { n with chan := false } } := by rw [← hsA]
+        rw [e2]
+        have hfB : ∀ i, ((stA.rs.upd e fun n => { n with chan := false }).get i).dirty = (st.rs.get i).dirty ∧
+            ((stA.rs.upd e fun n => { n with chan := false }).get i).subs = (st.rs.get i).subs := by
+          intro i
+          rw [← hsA]
+          show ((((st.rs.upd e fun n => { n with woken := false })).upd e fun n => { n with chan := false }).get i).dirty
+            = _ ∧ _
+          rw [State.get_upd]; split
+          · exact hfA i
+          · exact hfA i
+        refine flagsOnly_frame ?_ (hfB e).1 (fun i => (hfB i).2)
+        intro y hy
+        rw [State.get_upd_ne _ _ (Ne.symm hy), ← hsA]; exact hoA y hy
+      · rw [effLoop_nochan _ _ _ (by rw [hAget]; simpa using hch)]
+        exact hfrA
+  · exact dead_frame hlt' (by simpa using healive)
 
 theorem InvC.pollNth {K : Nat} {v : View} {st : St} (h : InvC K v st) (hw : v.wf K = true) (hc : v.core = true)
     (i : Nat) : InvC K v (RView.pollNth st i) := by
